@@ -266,22 +266,24 @@ func (d *Device) handleABSEvent(ie *input.InputEvent) {
 		identifier := analogIdentifier(ie, false)
 		identifierNeg := analogIdentifier(ie, true)
 
+		// the direction being left is released first: the two directions never sound together, and after a
+		// transposition they may be the same pitch
 		switch {
 		case value <= -0.5:
+			d.AnalogNoteOff(identifier, ie)
 			_, ok := d.analogNoteTracker[identifierNeg]
 			if !ok && analog.Bidirectional {
 				d.AnalogNoteOn(identifierNeg, analog.NoteNeg, analog.ChannelOffsetNeg, ie)
 			}
-			d.AnalogNoteOff(identifier, ie)
 		case value > -0.49 && value < 0.49:
 			d.AnalogNoteOff(identifier, ie)
 			d.AnalogNoteOff(identifierNeg, ie)
 		case value >= 0.5:
+			d.AnalogNoteOff(identifierNeg, ie)
 			_, ok := d.analogNoteTracker[identifier]
 			if !ok {
 				d.AnalogNoteOn(identifier, analog.Note, analog.ChannelOffset, ie)
 			}
-			d.AnalogNoteOff(identifierNeg, ie)
 		}
 	case config.AnalogActionSim:
 		if !canBeNegative {
